@@ -40,7 +40,7 @@ TEXT = u'''Feature: F
       a > b: <a>
       """
 
-    @ex1
+    @ex1 @req/PAY-7 @c++
     Examples: First <a>
       | a | b | t |
       | A1 | B1 | T1 |
